@@ -17,7 +17,7 @@ RULE = ("Model level: Hypothesis draws a template and a sub-volume class (noise 
         "huge or tiny amplitudes / displaced copy with the peak exactly on the limit), box 4..16 per side, max_shifts "
         "class (0 / below 0.75 / off the 1/20 grid / integer / on-grid fraction / larger than the box / anisotropic), "
         "model in ZNCC/NCC/PCC/FSC, with or without a rotation set; oracle: no exception, finite shift and score, "
-        "|shift_i| <= max_shifts_i + 1e-4. Loader level: scalar / tuple / nm-with-scale max_shifts through align, "
+        "|shift_i| <= max_shifts_i + 1e-4. Loader level: scalar / tuple / nm-with-scale max_shifts through align (one template, 4-D stack, list), "
         "align_multi_templates, align_no_template, LoaderGroup.align, LoaderGroup.align_multi_templates on a noise "
         "tomogram; each molecule's displacement expressed in its own input frame must be within max_shifts and the "
         "align-d? features within max_shifts(nm)+0.005. Enumerated: max_shifts normalisation over scalar/sequence "
@@ -153,6 +153,10 @@ def judge_loader(d):
         try:
             if route == "align":
                 res = loader.align(tmpls[0], max_shifts=ms, alignment_model=Model, **kw).molecules
+            elif route == "align-stack":
+                res = loader.align(np.stack(tmpls, axis=0), max_shifts=ms, alignment_model=Model, **kw).molecules
+            elif route == "align-list":
+                res = loader.align(list(tmpls), max_shifts=ms, alignment_model=Model, **kw).molecules
             elif route == "multi":
                 res = loader.align_multi_templates(tmpls, max_shifts=ms, alignment_model=Model, **kw).molecules
             elif route == "notemplate":
@@ -296,7 +300,7 @@ def loader_cases(draw):
             "order": draw(st.sampled_from([1, 3])), "n": n, "seed": draw(gen.seeds),
             "offs": [[round(draw(st.floats(-0.5, 0.5)), 3) for _ in range(3)] for _ in range(4)],
             "rots_m": [draw(gen.rotvecs()) for _ in range(4)], "rots": rots,
-            "route": draw(st.sampled_from(["align", "multi", "notemplate", "group", "group-multi"]))}
+            "route": draw(st.sampled_from(["align", "align-stack", "align-list", "multi", "notemplate", "group", "group-multi"]))}
 
 
 def normalize_grid(tier):
@@ -327,7 +331,7 @@ def engines():
         Engine("model-fsc", judge_model, strategy=model_cases(("FSC",)), nontrivial=nontrivial, labels=labels_model,
                cases={"quick": 80, "thorough": 2000}, shards={"quick": 8, "thorough": 16}),
         Engine("loader", judge_loader, strategy=loader_cases(), nontrivial=nontrivial, labels=labels_loader,
-               cases={"quick": 60, "thorough": 1500}, shards={"quick": 6, "thorough": 16},
+               cases={"quick": 120, "thorough": 2500}, shards={"quick": 8, "thorough": 16},
                shrink={"quick": False, "thorough": True}),
         Engine("normalize", judge_normalize, enumerate=normalize_grid, labels=lambda d: [f"kind:{d['kind']}"]),
     ]
